@@ -410,7 +410,15 @@ class TaskManager(rpu.ClientComponent):
                     self._log.debug('tmgr: state known: %s', uid)
                     continue
 
-                target, passed = rps._task_state_progress(uid, current, target)
+                try:
+                    target, passed = rps._task_state_progress(uid, current,
+                                                              target)
+                except ValueError:
+                    # contradicting final state: the task is final already,
+                    # and other tasks in this bulk still need their update
+                    self._log.warn('tmgr: ignore %s for final task %s [%s]',
+                                   target, uid, current)
+                    continue
 
                 if target in [rps.CANCELED, rps.FAILED]:
                     # don't replay intermediate states
